@@ -11,7 +11,14 @@
   The inner solver is an arbitrary function `InnerCall → InnerResult` (an adaptive adversary: it
   sees everything it is called with, including `outer_iter`, so every *sequence* of outcomes is
   one such function).  The clock is an oracle bit in `InnerResult` (`outOfTime` = the value of
-  `time_elapsed > params.max_time` read after that inner solve).
+  `time_elapsed > params.max_time` read after that inner solve).  So is ALM's own stop flag
+  (`AtomicStopSignal stop_signal`, set by `ALMSolver::stop()` — which also forwards to the inner
+  solver — and by nothing else, never cleared): `stopSeen` = the value `stop_signal.stop_requested()`
+  has when the loop body reads it, once, right after that inner solve.  Being part of what the
+  adversary returns, it may depend on everything the inner solve was called with (`outer_iter`
+  included) and on the inner outcome: "stop() landed before / during / not until after inner solve k"
+  are all such functions.  The inner solver's *own* flag is not modelled here: whether it reports
+  `Interrupted` is part of its arbitrary `status`.
 -/
 import Alpaqa.Model.Vec
 import Alpaqa.Model.C15
@@ -53,6 +60,9 @@ structure InnerResult (α S : Type) where
   stats : S
   /-- clock oracle: `time_elapsed > params.max_time`, read right after this inner solve -/
   outOfTime : Bool
+  /-- stop oracle: `stop_signal.stop_requested()` (ALM's own flag), read right after this inner solve
+      (not read on the `m == 0` path) -/
+  stopSeen : Bool
 
 /-- One pass through the loop body. -/
 structure Step (α A S : Type) where
@@ -92,7 +102,7 @@ def mkStep (P : ALMParams α) (prob : Problem α) (accAdd : A → S → A) (hasS
   let call : InnerCall α := ⟨x, pc.1, st.Sig_curr, st.error, almInnerOpts st.eps i⟩
   let r := inner call
   -- the inner solver wrote `err_z` into `error`
-  let out := almIter P accAdd prob.m i hasSig SigU pc.2 r.outOfTime r.status r.eps r.stats
+  let out := almIter P accAdd prob.m i hasSig SigU pc.2 r.outOfTime r.stopSeen r.status r.eps r.stats
     st.Sig_curr r.errz st.error_old st.norm_e st.norm_e_old st.s st.eps
   ⟨i, st, call, r, out⟩
 
